@@ -147,6 +147,7 @@ func (c Commands) MarshalBinary() ([]byte, error) {
 // UnmarshalBinary decodes a slice of bytes into a slice of commands.
 func (c *Commands) UnmarshalBinary(uplink bool, data []byte) error {
 	var i int
+	*c = nil
 
 	for i < len(data) {
 		var cmd Command
@@ -303,8 +304,8 @@ func (p *McGroupStatusAnsPayload) UnmarshalBinary(data []byte) error {
 
 	var ansGroupMaskCount int
 	for i := range p.Status.AnsGroupMask {
-		if data[0]&(1<<uint8(i)) != 0 {
-			p.Status.AnsGroupMask[i] = true
+		p.Status.AnsGroupMask[i] = data[0]&(1<<uint8(i)) != 0
+		if p.Status.AnsGroupMask[i] {
 			ansGroupMaskCount++
 		}
 	}
@@ -315,6 +316,7 @@ func (p *McGroupStatusAnsPayload) UnmarshalBinary(data []byte) error {
 		return fmt.Errorf("lorawan/applayer/multicastsetup: %d bytes are expected", p.Size())
 	}
 
+	p.Items = nil
 	for i := 0; i < ansGroupMaskCount; i++ {
 		offset := 1 + (i * 5)
 		item := McGroupStatusAnsPayloadItem{
@@ -663,6 +665,7 @@ func (p *McClassCSessionAnsPayload) UnmarshalBinary(data []byte) error {
 	p.StatusAndMcGroupID.FreqError = data[0]&0x08 != 0
 	p.StatusAndMcGroupID.McGroupUndefined = data[0]&0x10 != 0
 
+	p.TimeToStart = nil
 	if !p.StatusAndMcGroupID.hasError() {
 		if len(data) < p.Size() {
 			return fmt.Errorf("lorawan/applayer/multicastsetup: %d bytes are expected", p.Size())
@@ -831,6 +834,7 @@ func (p *McClassBSessionAnsPayload) UnmarshalBinary(data []byte) error {
 	p.StatusAndMcGroupID.FreqError = data[0]&0x08 != 0
 	p.StatusAndMcGroupID.McGroupUndefined = data[0]&0x10 != 0
 
+	p.TimeToStart = nil
 	if !p.StatusAndMcGroupID.hasError() {
 		if len(data) < p.Size() {
 			return fmt.Errorf("lorawan/applayer/multicastsetup: %d bytes are expected", p.Size())
